@@ -10,6 +10,7 @@ import Generated.Schnorr
 import Model.C04.Domain
 import Model.C04.Verdict
 import Model.C04.Verdict2
+import Model.C04.Derived
 import Model.C04.Switch
 import Generated.Backend
 import Generated.BackendSites
@@ -37,16 +38,17 @@ def bool? : String → Option Bool
 def verdictOp : List String → Option String
   | ["mult", arm, m, q] => do
     let m ← parseEnum Scalar.all m; let q ← parseEnum Point.all q
-    pure (if arm == "py" then Mult.py m q else Mult.bind m q).token
+    -- the bindings arm is answered by the table DERIVED from the generated guards (Model/C04/Derived.lean)
+    pure (if arm == "py" then Mult.py m q else Mult.bindDerived m q).token
   | ["tweakadd", arm, t, p] => do
     let t ← parseEnum Tweak.all t; let p ← parseEnum Point.all p
-    pure (if arm == "py" then TweakAdd.py t p else TweakAdd.bind t p).token
+    pure (if arm == "py" then TweakAdd.py t p else TweakAdd.bindDerived t p).token
   | ["pubkey", arm, q] => do
     let q ← parseEnum Scalar.all q
-    pure (if arm == "py" then PubKey.py q else PubKey.bind q).token
+    pure (if arm == "py" then PubKey.py q else PubKey.bindDerived q).token
   | ["dh", arm, d, q] => do
     let d ← parseEnum Scalar.all d; let q ← parseEnum Point.all q
-    pure (if arm == "py" then Dh.py d q else Dh.bind d q).token
+    pure (if arm == "py" then Dh.py d q else Dh.bindDerived d q).token
   | ["pfo", arm, hyb, k] => do
     let hyb ← bool? hyb; let k ← parseEnum Sec.all k
     pure (if arm == "py" then PointFromOctets.py hyb k else PointFromOctets.bind hyb k).token
@@ -77,7 +79,7 @@ def verdictOp : List String → Option String
   | ["tap.prvroot", arm, q] => do
     let q ← parseEnum Scalar.all q
     pure (if arm == "py" then TapPrv.py q else TapPrv.bind q).token
-  | ["tap.check", arm, q, c] => do
+  | ["tap.check", arm, q, c, _tag] => do
     let q ← parseEnum QKey.all q; let c ← parseEnum Control.all c
     pure (if arm == "py" then TapCheck.py q c else TapCheck.bind q c).token
   | ["bip32", arm, ch, i, il] => do
